@@ -146,6 +146,35 @@ def run(tier, seed):
                                  {"kind": "convert", "input": want[1], "context": "Normal", "expect": want[0]}, {"kind": "restart"},
                                  {"kind": "convert", "input": want[1], "context": "Normal", "expect": want[0]}]))
         expect.append(([(1, want, text, [])], [want]))
+    # two compounds with one reading (新車 / 真車, both しんくるま), a compound whose reading the dictionary already has (信車/しんくるま), and a
+    # registered word with that reading: each confirmed compound is learned, offered, saved and still offered after a restart
+    pair_base = {"std": [{"reading": "くるま", "stem": "車", "speech": {"Noun": "Common"}}, {"reading": "しんくるま", "stem": "信車", "speech": {"Noun": "Common"}}],
+                 "anc": [{"reading": "しん", "stem": "新", "speech": {"Affix": "Prefix"}}, {"reading": "しん", "stem": "真", "speech": {"Affix": "Prefix"}}], "tankan": []}
+    d_pair = {"alphabet": ALPHABET, "std": [["くるま", "車", {"Noun": "Common"}], ["しんくるま", "信車", {"Noun": "Common"}]], "anc": [["しん", "新", {"Affix": "Prefix"}], ["しん", "真", {"Affix": "Prefix"}]]}
+    for first, second, pre_register in ((("新車", "しんくるま"), ("真車", "しんくるま"), False), (("真車", "しんくるま"), ("新車", "しんくるま"), True)):
+        rq, ex, learned, nconv = [], [], [], 0
+        d_now = dict(d_pair)
+        if pre_register:
+            rq.append({"kind": "register", "wkind": "CommonNoun", "reading": "しんくるま", "word": "進車"})
+            d_now = dict(d_now, std=d_now["std"] + [["しんくるま", "進車", {"Noun": "Common"}]])
+        ok_pair = True
+        for want in (first, second):
+            rb = harness([{"op": "kkc_query", "dict": d_now, "context": "Normal", "freq": [], "input": "しんくるま", "n": 100}])[0]
+            ci = next((i for i, c in enumerate(rb.get("candidates", [])) if affix_shape(c["nodes"][1:-1]) == want), None)
+            if ci is None:
+                ok_pair = False
+                break
+            rq += [{"kind": "convert", "input": "しんくるま", "context": "Normal", "expect_text_at": (ci, rb["candidates"][ci]["text"])}, {"kind": "confirm", "session": nconv, "cid": str(ci)}]
+            nconv += 1
+            ex.append((len(rq) - 1, want, rb["candidates"][ci]["text"], list(learned)))
+            learned.append(want)
+            d_now = dict(d_now, std=d_now["std"] + [[want[1], want[0], {"Noun": "Common"}]])
+        if not ok_pair:
+            continue
+        rq += [{"kind": "convert", "input": "しんくるま", "context": "Normal", "expect": w[0]} for w in learned] + [{"kind": "restart"}]
+        rq += [{"kind": "convert", "input": "しんくるま", "context": "Normal", "expect": w[0]} for w in learned + [("信車", "")]]
+        items.append((pair_base, rq))
+        expect.append((ex, learned))
     runs = run_histories(items, threads=12)
     nontrivial = 0
     for hr, (exp, learned) in zip(runs, expect):
